@@ -123,6 +123,12 @@ func (e *Exec) onPoint(id int) {
 			e.envChurn()
 		case "gc1":
 			runtime.GC()
+		case "gcasync":
+			// start a collection on another goroutine and keep executing: the
+			// statements that follow overlap the collector's concurrent mark phase
+			// (timing not under the simulator's control: findings are re-executed)
+			go runtime.GC()
+			runtime.Gosched()
 		}
 		e.pointFired++
 		e.st.Events["point_"+act]++
